@@ -2,6 +2,7 @@ import ProbLogModel.Sem
 import ProbLogProofs.Lemmas.SemGamma
 import ProbLogProofs.Lemmas.SemRules
 import ProbLogProofs.Lemmas.SemGroupsRun
+import ProbLogProofs.Lemmas.SemRun
 /-!
 # C07 — marginals do not depend on the textual order of the program (specification level)
 
@@ -66,6 +67,26 @@ theorem C07_perm_groups_run (P : Prog) {gs' : List Group} (h : P.groups.Perm gs'
     run { P with groups := gs' } queries evidence = run P queries evidence :=
   SemGroupsRun.run_perm_groups P h queries evidence
 
+/-- The order of the evidence statements is irrelevant. -/
+theorem C07_perm_evidence_run (P : Prog) (queries : List Nat) {ev ev' : List (Nat × Bool)} (h : ev.Perm ev') :
+    run P queries ev' = run P queries ev :=
+  SemRun.run_perm_evidence P queries h
+
+/-- The order of the query statements is irrelevant: `z` and the counters are unchanged and every query keeps its
+    numerator (the numerator list is permuted along with the queries). -/
+theorem C07_perm_queries_run (P : Prog) {qs qs' : List Nat} (h : qs.Perm qs') (evidence : List (Nat × Bool)) :
+    (run P qs' evidence).z = (run P qs evidence).z ∧
+    (run P qs' evidence).undefWorlds = (run P qs evidence).undefWorlds ∧
+    (run P qs' evidence).nworlds = (run P qs evidence).nworlds ∧
+    (List.zip qs' (run P qs' evidence).num).Perm (List.zip qs (run P qs evidence).num) := by
+  have hroots : ∀ a, a ∈ qs' ++ evidence.map (·.1) ↔ a ∈ qs ++ evidence.map (·.1) := by
+    intro a; simp only [List.mem_append, h.mem_iff]
+  obtain ⟨h1, h2, h3, h4⟩ := SemRun.roots_congr P hroots evidence
+  rw [SemRun.run_eq_sums, SemRun.run_eq_sums, h1, h2, h3, h4]
+  refine ⟨rfl, rfl, rfl, ?_⟩
+  rw [SemRun.zip_map_self, SemRun.zip_map_self]
+  exact h.symm.map _
+
 /-! ### non-vacuity: `0.3::c0. 0.6::c1. a0 :- c0. a1 :- a0, \+a2. a2 :- c1. a1 :- a2, a0.` -/
 
 def exRules : List Rule :=
@@ -90,6 +111,11 @@ example : (run { exProg with rules := exRulesPerm } [1] [(0, true)]).num = [3/10
 
 example : exProg.groups.Perm [⟨[(3/5, 1)]⟩, ⟨[(3/10, 0)]⟩] := List.Perm.swap _ _ _
 example : (run { exProg with groups := [⟨[(3/5, 1)]⟩, ⟨[(3/10, 0)]⟩] } [1] [(0, true)]).num = [3/10] := by
+  decide +kernel
+
+example : [((0 : Nat), true), (2, false)].Perm [(2, false), (0, true)] := List.Perm.swap _ _ _
+example : (run exProg [1] [(2, false), (0, true)]).z = 3/25 ∧ (run exProg [1] [(0, true), (2, false)]).z = 3/25 ∧
+    (run exProg [2, 1] [(0, true)]).num = [9/50, 3/10] ∧ (run exProg [1, 2] [(0, true)]).num = [3/10, 9/50] := by
   decide +kernel
 
 end ProbLogProofs.C07
